@@ -697,6 +697,7 @@ func main() {
 	} else {
 		r := hx.Rand()
 		impConstStage(r)
+		sockStage()
 		per, nops := 200, 40
 		if hx.Thorough() {
 			per, nops = 2500, 70
